@@ -39,6 +39,29 @@ ADD4 = {
  "C18": " Round 4: the hand-over of the head of the queue is a truth table over (vehicle, station, free plug): ChargingStation(own station, own plug) exactly when all three hold; grant conditions are specialised to a queued vehicle.",
  "C20": " Round 4: the per-vehicle step of the driver phase hands on the state the driver's update produced whenever it produced one; closures created in a loop that outlive their iteration and read loop variables are reported (PY.late-binding, on every property's anchor files).",
 }
+ADD5 = {
+ "C01": " Round 5: process-lifetime memory package-wide (module/class containers written at run time, cached mutable results changed by a caller, stateful closures).",
+ "C02": " Round 5: the vehicle-update phase threads its state.",
+ "C03": " Round 5: the vehicle-update phase threads its state; move() hands back no state only when the traversal produced none; entities enter a state only at initialisation and through the request updates.",
+ "C04": " Round 5: the out-of-energy helper ends in OutOfService.enter on every non-error path.",
+ "C05": " Round 5: energy is booked as gained only by add_energy.",
+ "C06": " Round 5: vehicle-phase fold threading; move() rejections.",
+ "C08": " Round 5: closed caller set of the entity-adding operations.",
+ "C09": " Round 5: acquire/release pairing for all four resource kinds; instructions applied without one pop per vehicle are a violation.",
+ "C10": " Round 5: admission truth table (fleets configured iff the request names a fleet).",
+ "C11": " Round 5: Request.from_row refuses only for a missing field or a failed conversion; process memory in the configuration modules.",
+ "C12": " Round 5: process memory and cross-key normalisation slips in the configuration modules the thresholds come from.",
+ "C13": " Round 5: the road network is not changed after construction (C16's rule).",
+ "C14": " Round 5: the road network is not changed after construction (C16's rule).",
+ "C15": " Round 5: pending reports are bound only by Reporter.__init__ / flush and never emptied or cut; collectors do not hand out containers they later empty.",
+ "C16": " Round 5: process-lifetime memory package-wide.",
+ "C17": " Round 5: one-pop clause; entity entry closed.",
+ "C18": " Round 5: the built-in charging controller's candidates exclude queued and charging vehicles.",
+ "C19": " Round 5: pending reports never withdrawn; add_energy books as gained the difference of the stored level; station-load sum also in case-split form.",
+ "C20": " Round 5: the driver phase folds over the vehicles on every path; stateful closures in the schedule table's builders.",
+}
+for _k, _v in ADD5.items():
+    ADD4[_k] = ADD4.get(_k, "") + _v
 TRUST = TRUST + (" Since round 4 the loader canonicalises spellings before analysis (hivecheck/canon.py: argument style of the pinned tree, walrus, chained _replace, library forms, moved functions put back) "
                  "and the path enumerator splices the paths of functions the pinned tree does not have into their callers; both are behaviour-preserving by construction and part of the trusted base.")
 
